@@ -1,6 +1,7 @@
 ; Stand-alone lemma behind the `remwrap` flag of govc (stdmodels.go, math.Remainder):
 ; for |x| < 3*pi, IEEE remainder(x, 2*pi) is x, x-2*pi, x+2*pi (each exact), or -0 for x = -2*pi.
 ; Expected answer: unsat. fp.rem costs the solvers many minutes; checked by ./lemmas/check.sh, not on every run.
+; Checked: cvc5 1.0.3 unsat (about 2 hours, 2026-10-02).
 ; The same statement was also tested on 2.2e8 doubles with Go's math.Remainder (no mismatch).
 (set-logic QF_FP)
 (declare-fun x () (_ FloatingPoint 11 53))
